@@ -57,26 +57,33 @@ Definition ts_to_date (ts : Z) : Z := ts / TICKS_PER_DAY.
 Definition adt_date (d : adt) : Z := dt_local d / TICKS_PER_DAY.
 
 (* ------------------------------------------------------------------------------------------------ *)
-(* The per-zone check.  With n = len(untils), U k = untils[k], W k = offsets[k] * 60000 (ticks, west):
-     OU k = U k - W k        local end of interval k           (= offset_untils[k])
-     TH k = U k - W (k+1)    local start of interval k+1       (the ambiguity threshold of _index_dt)
-   it demands, for every adjacent pair, that untils, OU and TH are ascending, that the local end of interval k
+(* Specification vocabulary (Z-indexed): n = len(untils); U k = untils[k]; W k = offsets[k] in ticks (west);
+   OU k = local end of interval k (= offset_untils[k]); TH k = local start of interval k+1. *)
+Definition nZ (z : zone) : Z := lenZ (z_untils z).
+Definition U (z : zone) (k : Z) : Z := getZ (z_untils z) k.
+Definition W (z : zone) (k : Z) : Z := getZ (z_offsets z) k * 60000.
+Definition OU (z : zone) (k : Z) : Z := U z k - W z k.
+Definition TH (z : zone) (k : Z) : Z := U z k - W z (k + 1).
+(* utc offset (east positive) of interval k, as Zone.offset returns it: timedelta(minutes=-offsets[k]) *)
+Definition E (z : zone) (k : Z) : Z := py_timedelta_minutes (- getZ (z_offsets z) k).
+
+(* interval k (0 <= k <= n) contains the instant ts: untils[k-1] <= ts < untils[k] *)
+Definition in_interval (z : zone) (k ts : Z) : Prop :=
+  0 <= k <= nZ z /\ (k = 0 \/ U z (k - 1) <= ts) /\ (k = nZ z \/ ts < U z k).
+
+(* The per-zone check.  It demands that there is one more offset than untils, that offset_untils is what
+   __init__ computes, for every adjacent pair, that untils, OU and TH are ascending, that the local end of interval k
    is not after the local start of interval k+2, and that the local start of interval k+2 taken with the
    offset of k+2 at transition k is not after the local end of k+1: no interval is shorter than the offset
    jumps next to it.  Under these, the offset recovered from a local time equals the one that produced it
    (Proofs/Moment_proofs.v). *)
 Definition zone_ok (z : zone) : bool :=
-  let u := z_untils z in
-  let w := z_offsets z in
-  let n := lenZ u in
-  let U := getZ u in
-  let W := fun k => getZ w k * 60000 in
-  andb (lenZ w =? n + 1)
+  andb (lenZ (z_offsets z) =? nZ z + 1)
   (andb (py_list_eqb Z.eqb (z_offset_untils z) (zone_init_offset_untils z))
    (forallb (fun k =>
-      andb (U k <=? U (k + 1))
-      (andb (U k - W k <=? U (k + 1) - W (k + 1))
-      (andb (U k - W (k + 1) <=? U (k + 1) - W (k + 2))
-      (andb (U k - W k <=? U (k + 1) - W (k + 2))
-            (U k - W (k + 2) <=? U (k + 1) - W (k + 1))))))
-      (zrange (n - 1)))).
+      andb (U z k <=? U z (k + 1))
+      (andb (OU z k <=? OU z (k + 1))
+      (andb (TH z k <=? TH z (k + 1))
+      (andb (OU z k <=? TH z (k + 1))
+            (U z k - W z (k + 2) <=? OU z (k + 1))))))
+      (zrange (nZ z - 1)))).
